@@ -168,8 +168,12 @@ def read_graphs(filename):
 
     # Iterate through the file, capturing blocks that start with one or more '#' lines
     while i < n_lines:
-        # Move to the start of the next graph header
+        # Move to the start of the next graph header. Only the content before the first header can be skipped
+        # here (later blocks end where the next header starts): it belongs to no block and must be blank
         while i < n_lines and not lines[i].lstrip().startswith('#'):
+            if lines[i].strip() != "":
+                utils.logger.error(f"{__name__}: Content before the first graph header: {lines[i].rstrip()}")
+                raise ValueError(f"Content before the first graph header: {lines[i].rstrip()}")
             i += 1
         if i >= n_lines:
             break
